@@ -206,8 +206,10 @@ func handleConn(conn net.Conn, conf *Config) error {
 	leptondController.SetAutoFFC(true)
 	totalFrames := 0
 	reader := bufio.NewReader(conn)
-	var err error
-	headerInfo, err = headers.ReadHeaderInfo(reader)
+	newHeaderInfo, err := headers.ReadHeaderInfo(reader)
+	mu.Lock()
+	headerInfo = newHeaderInfo
+	mu.Unlock()
 	if err != nil {
 		return err
 	}
@@ -237,7 +239,7 @@ func handleConn(conn net.Conn, conf *Config) error {
 		constantRecorder.SetAsConstantRecorder()
 	}
 
-	processor = motion.NewMotionProcessor(
+	newProcessor := motion.NewMotionProcessor(
 		parseFrame,
 		&conf.Motion,
 		&conf.Recorder,
@@ -248,6 +250,9 @@ func handleConn(conn net.Conn, conf *Config) error {
 		constantRecorder,
 		NewCPTVFileRecorder(conf, headerInfo, headerInfo.Brand(), headerInfo.Model(), headerInfo.CameraSerial(), headerInfo.Firmware()),
 	)
+	mu.Lock()
+	processor = newProcessor
+	mu.Unlock()
 
 	log.Print("reading frames")
 
